@@ -689,8 +689,21 @@ def _r3_uops_shape(ctx):
                                 and pm.match("list(M_y.values())[0]", fl.subst(s.value)) is not None]
                     if resolved and cfg.dominates(iff, n) and C.enclosing_loop(iff) is C.enclosing_loop(n):
                         ok = True
+                if not ok:
+                    # the reader runs only where the container is known not to be a map: under isinstance(x, (list, tuple))
+                    # or under not isinstance(x, dict) (branch or guard clause)
+                    stn = cfg.node_of(n) if not isinstance(n, ast.stmt) else n
+                    for e, pol in C.norm_fact_nodes(stn):
+                        if not (C.is_call_to(e, "isinstance") and len(e.args) == 2):
+                            continue
+                        subj = U(fl.subst(e.args[0]))
+                        if not (subj == U(fl.subst(it)) or subj.endswith(".port_uops")):
+                            continue
+                        kinds = {U(k) for k in (e.args[1].elts if isinstance(e.args[1], ast.Tuple) else [e.args[1]])}
+                        if (pol and kinds <= {"list", "tuple"}) or (not pol and "dict" in kinds):
+                            ok = True
                 if ok:
-                    ctx.node_ok("R3", f, n, "reader %s: isinstance(..., dict) branch stores one option before the loop" % f.qname)
+                    ctx.node_ok("R3", f, n, "reader %s: a map of alternatives is resolved or excluded before the loop" % f.qname)
                 else:
                     ctx.bad("R3", "%s iterates port_uops as pairs" % f.qname, f.where(n),
                             "%s stores the entry's port_pressure container (possibly a map of alternatives) "
